@@ -25,7 +25,7 @@ EXPLANATION = (
 NOT_DECIDED = ["that the value found is the minimum over all images for every cell (numerical)", "float32 rounding at half-box distances",
                "find_closest_contact neither reduces the box nor searches images (only matters for skewed cells; numerical)"]
 ASSUMPTIONS = ["round()/roundf() return the nearest integer", "fvec4 operators are element-wise"]
-FLOORS = {"C05-R1": 20, "C05-R2": 8, "C05-R3": 3, "C05-R4": 12, "C05-R5": 44}
+FLOORS = {"C05-R1": 20, "C05-R2": 8, "C05-R3": 3, "C05-R4": 12, "C05-R5": 44, "C05-R6": 20}
 
 DIST = "mdtraj/geometry/distance.py"
 GEO = "mdtraj/geometry/src/geometry.cpp"
@@ -43,6 +43,8 @@ def check(ctx):
     wrappers(ctx, "C05-R1", ["_dist_mic", "_dist_mic_t", "_dist_mic_displacement"])
     _kernels(ctx)
     ffi(ctx, "C05-R5", ["_dist", "_dist_displacement", "_dist_mic", "_dist_t", "_dist_mic_t", "_dist_mic_displacement", "_find_closest_contact"])
+    ctx.rule("C05-R6", "every geometry function with a `periodic` parameter forwards it to every package callee that has one")
+    periodic_plumbing(ctx, "C05-R6", floor=20)
 
 
 # ---------------------------------------------------------------------------------------------------
@@ -292,3 +294,39 @@ def ffi(ctx, rule, wrappers_):
                     an = dotted(a.args[0]) or an
                 ok = an == pname or an in ALIASES.get(pname, set()) or (pname.startswith("n_") and an in ("xyz", "out") and "shape" in src(a))
                 ctx.decide(ok, rule, call, PYX, w, desc, "receives `%s`" % src(a)[:30], "parameter `%s` of %s receives `%s`" % (pname, cname, src(a)[:40]))
+
+
+# ---------------------------------------------------------------------------------------------------
+def periodic_plumbing(ctx, rule, only=None, floor=0):
+    """Every geometry function with a `periodic` parameter hands that parameter to every callee of the package that has one."""
+    mods = [rel for rel in ctx.py.all_py("mdtraj/geometry")]
+    defs = {}
+    for rel in mods:
+        m = ctx.py.mod(rel)
+        for q, f in m.functions.items():
+            if "." not in q and "periodic" in params(f):
+                defs.setdefault(q, (rel, params(f)))
+    n = 0
+    for rel in mods:
+        if only is not None and rel not in only:
+            continue
+        m = ctx.py.mod(rel)
+        for q, f in m.functions.items():
+            if "periodic" not in params(f):
+                continue
+            for c in ast.walk(f):
+                if not isinstance(c, ast.Call):
+                    continue
+                cn = call_name(c) or ""
+                nm = cn.split(".")[-1]
+                if nm not in defs or nm == q or cn.startswith("_geometry."):
+                    continue
+                ps = defs[nm][1]
+                a = kwarg(c, "periodic", ps.index("periodic"))
+                n += 1
+                ctx.decide(a is not None and dotted(a) == "periodic", rule, c, rel, q, "%s(..., periodic=periodic)" % nm, "",
+                           "%s calls %s %s: the caller's choice of minimum-image treatment is ignored for this part of the computation"
+                           % (q, nm, "with periodic=%s" % src(a) if a is not None else "without passing `periodic` (the callee's default is used)"))
+    if n < floor:
+        raise AnalysisError("periodic plumbing: only %d forwarding sites found (expected >= %d)" % (n, floor))
+    return n
